@@ -280,6 +280,75 @@ fn probe_solve(func: &str) -> bool {
                     }
                 }
             }
+            // dual coefficients AND a dual abscissa together: d/d(abscissa) is the spline's derivative, d/d(datum j) stays the unit-data
+            // spline; at second order (Dual2 data) d2/du2 = 4 s'' for x = x0 + 2u and the mixed term d2/(du dy_j) = 2 * (unit-data spline j)'
+            {
+                let yd2: Vec<Dual2> = y.iter().enumerate().map(|(j, v)| Dual2::new(*v, vec![format!("y{}", j)])).collect();
+                let mut sd2 = PPSpline::<Dual2>::new(k, t.clone(), None);
+                if sd2.csolve(&tau, &yd2, left_n, right_n, false).is_err() {
+                    report("probe", func, &format!("{} with Dual2 data", what), "Err", "Ok", false);
+                    return true;
+                }
+                let mut units: Vec<PPSpline<f64>> = Vec::new();
+                for j in 0..n {
+                    let mut unit = vec![0.0; n];
+                    unit[j] = 1.0;
+                    let mut su = PPSpline::<f64>::new(k, t.clone(), None);
+                    su.csolve(&tau, &unit, left_n, right_n, false).unwrap();
+                    units.push(su);
+                }
+                for x0 in [0.0, 0.3, 2.0, 3.7, 5.0] {
+                    for m in 0..k.min(2) {
+                        let d1 = s.ppdnev_single(&x0, m + 1).unwrap();
+                        let d2 = s.ppdnev_single(&x0, m + 2).unwrap();
+                        // first order
+                        let xd = Dual::new(x0, vec!["x".to_string()]);
+                        match std::panic::catch_unwind(std::panic::AssertUnwindSafe(|| sd.ppdnev_single_dual(&xd, m))) {
+                            Ok(Ok(got)) => {
+                                let mut names = vec!["x".to_string()];
+                                for j in 0..n { names.push(format!("y{}", j)); }
+                                let g = got.gradient1(names.clone());
+                                if !close(g[0], d1) {
+                                    report("probe", func, &format!("{} with dual data: PPSpline<Dual>::ppdnev_single_dual(x={} tagged x, m={}): d/dx", what, x0, m), &format!("{}", g[0]), &format!("{}", d1), false);
+                                    return true;
+                                }
+                                for j in 0..n {
+                                    let e = units[j].ppdnev_single(&x0, m).unwrap();
+                                    if !close(g[1 + j], e) {
+                                        report("probe", func, &format!("{} with dual data: PPSpline<Dual>::ppdnev_single_dual(x={} tagged x, m={}): d/dy{}", what, x0, m, j), &format!("{}", g[1 + j]), &format!("{}", e), false);
+                                        return true;
+                                    }
+                                }
+                            }
+                            _ => { report("probe", func, &format!("{} with dual data: PPSpline<Dual>::ppdnev_single_dual(x={}, m={})", what, x0, m), "Err / PANIC", "a value", false); return true; }
+                        }
+                        // second order
+                        let mut xd2 = Dual2::new(x0, vec!["u".to_string()]);
+                        xd2 = &xd2 * 2.0 - x0;
+                        match std::panic::catch_unwind(std::panic::AssertUnwindSafe(|| sd2.ppdnev_single_dual2(&xd2, m))) {
+                            Ok(Ok(got2)) => {
+                                let mut names = vec!["u".to_string()];
+                                for j in 0..n { names.push(format!("y{}", j)); }
+                                let g1 = got2.gradient1(names.clone());
+                                let g2 = got2.gradient2(names.clone());
+                                if !close(g1[0], 2.0 * d1) || !close(g2[[0, 0]], 4.0 * d2) {
+                                    report("probe", func, &format!("{} with Dual2 data: PPSpline<Dual2>::ppdnev_single_dual2(x = {} + 2u, m={}): (d/du, d2/du2)", what, x0, m), &format!("({}, {})", g1[0], g2[[0, 0]]), &format!("({}, {})", 2.0 * d1, 4.0 * d2), false);
+                                    return true;
+                                }
+                                for j in 0..n {
+                                    let e0 = units[j].ppdnev_single(&x0, m).unwrap();
+                                    let e1 = units[j].ppdnev_single(&x0, m + 1).unwrap();
+                                    if !close(g1[1 + j], e0) || !close(g2[[0, 1 + j]], 2.0 * e1) || !close(g2[[1 + j, 0]], 2.0 * e1) {
+                                        report("probe", func, &format!("{} with Dual2 data: PPSpline<Dual2>::ppdnev_single_dual2(x = {} + 2u, m={}): (d/dy{j}, d2/du dy{j}, d2/dy{j} du)", what, x0, m, j = j), &format!("({}, {}, {})", g1[1 + j], g2[[0, 1 + j]], g2[[1 + j, 0]]), &format!("({}, {}, {})", e0, 2.0 * e1, 2.0 * e1), false);
+                                        return true;
+                                    }
+                                }
+                            }
+                            _ => { report("probe", func, &format!("{} with Dual2 data: PPSpline<Dual2>::ppdnev_single_dual2(x={}, m={})", what, x0, m), "Err / PANIC", "a value", false); return true; }
+                        }
+                    }
+                }
+            }
         }
     }
     false
@@ -289,7 +358,7 @@ pub fn probe(func: &str) -> bool {
     std::panic::set_hook(Box::new(|_| {}));
     match func {
         "bsplev_single_f64" | "bspldnev_single_f64" => probe_basis(func) || probe_solve(func),
-        "bsplmatrix" | "csolve" | "ppdnev_single" | "ppdnev_single_dual" | "ppdnev_single_dual2" | "bspldnev_single_dual" | "bspldnev_single_dual2" | "bsplev_single_dual" | "bsplev_single_dual2" | "mapped_value" => probe_solve(func) || probe_basis(func),
+        "bsplmatrix" | "csolve" | "ppdnev_single" | "ppdnev_single_dual" | "ppdnev_single_dual2" | "bspldnev_single_dual" | "bspldnev_single_dual2" | "bsplev_single_dual" | "bsplev_single_dual2" | "mapped_value" | "dmul11_dual" | "dmul11_dual2" => probe_solve(func) || probe_basis(func),
         _ => false,
     }
 }
